@@ -14,7 +14,7 @@ import Peppi.Lemmas.C01A
 import Peppi.Lemmas.C01B
 import Peppi.Lemmas.C01C
 import Peppi.Lemmas.C01G
-import Peppi.PremisesViews
+import Peppi.PremisesCore
 import Peppi.Lemmas.GenFile
 import Peppi.Lemmas.GenInst
 import Peppi.Lemmas.GenCor
@@ -126,60 +126,60 @@ theorem rawSize_G (T : TextOracle) (r : Replay) (s : Start) (gk : GeckoBlocks) (
       .ok (r.rawG s.version (portOccupancy s) gk).length :=
   _root_.Peppi.rawSize_G T r s gk h ge hge
 
-/- from `Peppi.PremisesViews` -/
+/- from `Peppi.PremisesCore` -/
 open Extracted in
-theorem views_End : structOK true true End.views = true :=
-  _root_.Peppi.views_End 
+theorem core_End : structCoreOK true true End.views = true :=
+  _root_.Peppi.core_End 
 
-/- from `Peppi.PremisesViews` -/
+/- from `Peppi.PremisesCore` -/
 open Extracted in
-theorem views_Item : structOK false true Item.views = true :=
-  _root_.Peppi.views_Item 
+theorem core_Item : structCoreOK false true Item.views = true :=
+  _root_.Peppi.core_Item 
 
-/- from `Peppi.PremisesViews` -/
+/- from `Peppi.PremisesCore` -/
 open Extracted in
-theorem views_ItemMisc : structOK false false ItemMisc.views = true :=
-  _root_.Peppi.views_ItemMisc 
+theorem core_ItemMisc : structCoreOK false false ItemMisc.views = true :=
+  _root_.Peppi.core_ItemMisc 
 
-/- from `Peppi.PremisesViews` -/
+/- from `Peppi.PremisesCore` -/
 open Extracted in
-theorem views_Position : structOK false true Position.views = true :=
-  _root_.Peppi.views_Position 
+theorem core_Position : structCoreOK false true Position.views = true :=
+  _root_.Peppi.core_Position 
 
-/- from `Peppi.PremisesViews` -/
+/- from `Peppi.PremisesCore` -/
 open Extracted in
-theorem views_Post : structOK false true Post.views = true :=
-  _root_.Peppi.views_Post 
+theorem core_Post : structCoreOK false true Post.views = true :=
+  _root_.Peppi.core_Post 
 
-/- from `Peppi.PremisesViews` -/
+/- from `Peppi.PremisesCore` -/
 open Extracted in
-theorem views_Pre : structOK false true Pre.views = true :=
-  _root_.Peppi.views_Pre 
+theorem core_Pre : structCoreOK false true Pre.views = true :=
+  _root_.Peppi.core_Pre 
 
-/- from `Peppi.PremisesViews` -/
+/- from `Peppi.PremisesCore` -/
 open Extracted in
-theorem views_Start : structOK false true Start.views = true :=
-  _root_.Peppi.views_Start 
+theorem core_Start : structCoreOK false true Start.views = true :=
+  _root_.Peppi.core_Start 
 
-/- from `Peppi.PremisesViews` -/
+/- from `Peppi.PremisesCore` -/
 open Extracted in
-theorem views_StateFlags : structOK false false StateFlags.views = true :=
-  _root_.Peppi.views_StateFlags 
+theorem core_StateFlags : structCoreOK false false StateFlags.views = true :=
+  _root_.Peppi.core_StateFlags 
 
-/- from `Peppi.PremisesViews` -/
+/- from `Peppi.PremisesCore` -/
 open Extracted in
-theorem views_TriggersPhysical : structOK false true TriggersPhysical.views = true :=
-  _root_.Peppi.views_TriggersPhysical 
+theorem core_TriggersPhysical : structCoreOK false true TriggersPhysical.views = true :=
+  _root_.Peppi.core_TriggersPhysical 
 
-/- from `Peppi.PremisesViews` -/
+/- from `Peppi.PremisesCore` -/
 open Extracted in
-theorem views_Velocities : structOK false true Velocities.views = true :=
-  _root_.Peppi.views_Velocities 
+theorem core_Velocities : structCoreOK false true Velocities.views = true :=
+  _root_.Peppi.core_Velocities 
 
-/- from `Peppi.PremisesViews` -/
+/- from `Peppi.PremisesCore` -/
 open Extracted in
-theorem views_Velocity : structOK false true Velocity.views = true :=
-  _root_.Peppi.views_Velocity 
+theorem core_Velocity : structCoreOK false true Velocity.views = true :=
+  _root_.Peppi.core_Velocity 
 
 /- from `Peppi.Lemmas.GenFile` -/
 open Extracted in
